@@ -602,6 +602,7 @@ package wire
 //@   requires len(data) <= 1099511627776
 //@   ensures [cut-at-length] implies(result3 == nil, result0 != nil && len(result1) + len(result2) == len(data) && len(result1) == int(result0.parsedLen + result0.Length))
 //@   ensures [error-no-slices] implies(result3 != nil, result1 == nil && result2 == nil)
+//@   ensures [a-parsed-packet-is-never-empty] implies(result3 == nil, len(result1) >= 1)
 //@   modifies nothing
 
 // ---------------- packet number field, short header, extended header (C08) ----------------
@@ -852,4 +853,17 @@ package wire
 //@   modifies nothing
 //@ func LogFrame
 //@   trusted logging only
+//@   modifies nothing
+
+//@ func IsVersionNegotiationPacket
+//@   props C13
+//@   ensures [long-header-with-version-zero] iff(result, len(b) >= 5 && b[0] >= 128 && b[1] == 0 && b[2] == 0 && b[3] == 0 && b[4] == 0)
+//@   modifies nothing
+
+//@ func ParseConnectionID
+//@   props C08
+//@   requires 0 <= shortHeaderConnIDLen && shortHeaderConnIDLen <= 20 && len(data) <= 1099511627776
+//@   ensures [short-header-id-has-the-configured-length] implies(result1 == nil && len(data) > 0 && data[0] < 128, int(result0.l) == shortHeaderConnIDLen && len(data) >= shortHeaderConnIDLen + 1)
+//@   ensures [long-header-id-has-the-encoded-length] implies(result1 == nil && len(data) > 0 && data[0] >= 128, len(data) >= 6 && int(result0.l) == int(data[5]) && int(data[5]) <= 20 && len(data) >= 6 + int(data[5]))
+//@   ensures [empty-is-an-error] implies(len(data) == 0, result1 != nil)
 //@   modifies nothing
